@@ -23,6 +23,20 @@
 (* only provider entries can be --, everything else is _Other: a stale     *)
 (* TypeSystem answer and an offered set that misses an added generator     *)
 (* alarm.                                                                  *)
+(*   OfferedCompatibleHist  : along the history, every generator in an     *)
+(* offered set (answer of a query when it was asked, cached answer at the  *)
+(* end) returns NOW -- generated_type() recorded from the real generator   *)
+(* after that step -- a type that may be a subtype of the requested type   *)
+(* (declarative MaybeSub on the graph that received the recorded edges).   *)
+(* It holds under the known deviation as well: an offered set that         *)
+(* survives an edge only misses generators.  update_return_type is the     *)
+(* call that can break it: Any -> {c} narrows what a generator is good     *)
+(* for, and the providers judge the KEYS of the generator table, so the    *)
+(* registration under the old type has to go.                              *)
+(* Every event carries the generator table after the call (`tab`: one      *)
+(* record per registration with the key type it is registered under and    *)
+(* the type the generator generates now); Drift_Table compares it with     *)
+(* the table of the design model after every step.                         *)
 (* One phase per clause (TLC reports one violated invariant per state).    *)
 (***************************************************************************)
 EXTENDS TypeSystem, TLCExt, Json, IOUtils
@@ -32,16 +46,17 @@ Traces == ndJsonDeserialize(IOEnv.TRACE_FILE)
 VARIABLES tid, l, ph,
           prov,    \* provider of this trace
           upd      \* cache entry -> kinds of updates that happened since it entered the cache
-tvars == <<tid, l, ph, prov, upd, hier, extra, h, rel, gens, ret, memo, steps>>
+tvars == <<tid, l, ph, prov, upd, hier, extra, h, rel, gens, ret, tab, memo, steps>>
 
 \* clauses evaluated after an event of the given kind, one phase each
 PhasesOf(kind) ==
   CASE kind = "final" -> <<"CachedEqualsRecomputed_KnownNoClearOnAddEdge",
-                           "CachedEqualsRecomputed_Other", "Drift_Final">>
-    [] kind = "query" -> <<"Drift_Answer">>
-    [] kind = "update_ret" -> <<"Drift_ReturnType">>
-    [] kind = "init" -> <<"Drift_Generators">>
-    [] OTHER -> <<"-">>
+                           "CachedEqualsRecomputed_Other", "OfferedCompatibleHist",
+                           "Drift_Final", "Drift_Table">>
+    [] kind = "query" -> <<"OfferedCompatibleHist", "Drift_Answer", "Drift_Table">>
+    [] kind = "update_ret" -> <<"Drift_ReturnType", "Drift_Table">>
+    [] kind = "init" -> <<"Drift_Generators", "Drift_Table">>
+    [] OTHER -> <<"Drift_Table">>
 
 ev == Traces[tid].ev[l]
 At(name) == l > 0 /\ PhasesOf(ev.k)[ph] = name
@@ -60,7 +75,7 @@ Follow(m2, kinds) ==
 TInit == /\ tid \in 1..Len(Traces) /\ l = 0 /\ ph = 1
          /\ prov = "G" /\ upd = [k \in {} |-> {}]
          /\ hier = AllRoots /\ extra = {} /\ h = H0 /\ rel = NoRel
-         /\ gens = {} /\ ret = [g \in {} |-> AnyT] /\ memo = EmptyMemo /\ steps = 0
+         /\ gens = {} /\ ret = [g \in {} |-> AnyT] /\ tab = {} /\ memo = EmptyMemo /\ steps = 0
 
 Consume(e) ==
   CASE e.k = "init" ->
@@ -68,35 +83,38 @@ Consume(e) ==
          /\ gens' = {e.gens[i].g : i \in DOMAIN e.gens}
          /\ ret' = [g \in {e.gens[i].g : i \in DOMAIN e.gens} |->
                       e.gens[CHOOSE i \in DOMAIN e.gens : e.gens[i].g = g].ret]
+         /\ tab' = {<<e.gens[i].ret, e.gens[i].g>> : i \in DOMAIN e.gens}
          /\ UNCHANGED <<upd, extra, h, memo>>
     [] e.k = "add_edge" ->
          /\ extra' = extra \cup {<<e.x, e.y>>}
          /\ h' = HOf(hier, extra \cup {<<e.x, e.y>>})
          /\ memo' = MemoAfterAddEdge(memo)
          /\ upd' = Follow(MemoAfterAddEdge(memo), {"add_edge"})
-         /\ UNCHANGED <<prov, gens, ret>>
+         /\ UNCHANGED <<prov, gens, ret, tab>>
     [] e.k = "add_gen" ->
          /\ gens' = gens \cup {e.g}
          /\ ret' = [g \in (DOMAIN ret) \cup {e.g} |-> IF g = e.g THEN e.ret ELSE ret[g]]
+         /\ tab' = IF Registered(e.ret) THEN tab \cup {<<e.ret, e.g>>} ELSE tab
          /\ memo' = MemoAfterAddGenerator(memo)
          /\ upd' = Follow(MemoAfterAddGenerator(memo), {"add_gen"})
          /\ UNCHANGED <<prov, extra, h>>
     [] e.k = "update_ret" ->
          LET new == AddOrMakeUnion(ret[e.g], e.c) IN
-           IF new = ret[e.g] THEN UNCHANGED <<prov, upd, extra, h, gens, ret, memo>>
+           IF new = ret[e.g] THEN UNCHANGED <<prov, upd, extra, h, gens, ret, tab, memo>>
            ELSE /\ ret' = [ret EXCEPT ![e.g] = new]
+                /\ tab' = (tab \ {<<ret[e.g], e.g>>}) \cup {<<new, e.g>>}
                 /\ memo' = MemoAfterUpdateReturnType(memo)
                 /\ upd' = Follow(MemoAfterUpdateReturnType(memo), {"update_ret"})
                 /\ UNCHANGED <<prov, extra, h, gens>>
     [] e.k = "query" ->
          /\ memo' = AfterQuery(St, memo, e.key)
          /\ upd' = Follow(AfterQuery(St, memo, e.key), {})
-         /\ UNCHANGED <<prov, extra, h, gens, ret>>
-    [] e.k = "final" -> UNCHANGED <<prov, upd, extra, h, gens, ret, memo>>
+         /\ UNCHANGED <<prov, extra, h, gens, ret, tab>>
+    [] e.k = "final" -> UNCHANGED <<prov, upd, extra, h, gens, ret, tab, memo>>
 
 TNext == /\ UNCHANGED <<tid, hier, rel, steps>>
          /\ IF l > 0 /\ ph < Len(PhasesOf(ev.k))
-            THEN ph' = ph + 1 /\ UNCHANGED <<l, prov, upd, extra, h, gens, ret, memo>>
+            THEN ph' = ph + 1 /\ UNCHANGED <<l, prov, upd, extra, h, gens, ret, tab, memo>>
             ELSE /\ l < Len(Traces[tid].ev)
                  /\ l' = l + 1 /\ ph' = 1
                  /\ Consume(Traces[tid].ev[l + 1])
@@ -116,7 +134,24 @@ CachedEqualsRecomputed_Other ==
   (At("CachedEqualsRecomputed_Other") /\ Final) =>
     \A a \in Asked : Stale(a) => EdgeSince(a)
 
+\* "every generator Pynguin may pick returns a type that may be a subtype of the requested
+\* type": the offered set is the recorded answer of the real provider, the return type is
+\* generated_type() of the real generator after this step (ev.tab), the graph is the analysed
+\* one plus the recorded edges
+CompatibleNow(g, t) == \A i \in DOMAIN ev.tab : ev.tab[i].g = g => MaybeSub(h, ev.tab[i].ret, t)
+OfferedCompatibleHist ==
+  At("OfferedCompatibleHist") =>
+    IF ev.k = "query"
+    THEN ev.key.q = "offered" => \A g \in ToSetOf(ev.ans.s) : CompatibleNow(g, ev.key.l)
+    ELSE \A a \in Asked : a.key.q = "offered" => \A g \in ToSetOf(a.cached.s) : CompatibleNow(g, a.key.l)
+
 (* the real trace is a behaviour of the cache machine with the known deviations *)
+\* the generator table after every call: registrations (key type, generator) as in the design
+\* model, and every generator generates the type the model has for it
+Drift_Table ==
+  At("Drift_Table") =>
+    /\ {<<ev.tab[i].key, ev.tab[i].g>> : i \in DOMAIN ev.tab} = tab
+    /\ \A i \in DOMAIN ev.tab : ev.tab[i].g \in gens /\ ev.tab[i].ret = ret[ev.tab[i].g]
 Drift_Answer == (At("Drift_Answer") /\ ev.k = "query") => ObsAns(ev.ans) = memo[ev.key]
 Drift_ReturnType == (At("Drift_ReturnType") /\ ev.k = "update_ret") => ev.ret = ret[ev.g]
 Drift_Generators ==
